@@ -3,6 +3,9 @@ from __future__ import annotations
 from typing import Callable
 
 from ._type_qualifier import Port, Generic
+from ._bit import Bit
+from ._boolean import _Boolean
+from ._integer import Integer
 from ._bit_vector import BitVector
 from ._unsigned import Unsigned
 from ._signed import Signed
@@ -323,6 +326,15 @@ class Entity(Block):
                         assert issubclass(port_type, vector_type) == issubclass(
                             root_type, vector_type
                         ), f"the object connected to port '{name}' is declared as {root_type}, the port as {port_type}"
+
+                # The same holds for scalar ports: a Bit is a std_logic, a bool a boolean and an
+                # int an integer, the association contains no conversion function.
+                value_type = type(Port.decay(value))
+
+                for scalar_type in (Bit, _Boolean, Integer):
+                    assert issubclass(port_type, scalar_type) == issubclass(
+                        value_type, scalar_type
+                    ), f"the object connected to port '{name}' has the type {value_type}, the port the type {port_type}"
 
                 self._cohdl_port_definitions[name] = value
             elif name in info.generics:
